@@ -945,6 +945,7 @@ struct Classes {
     recreate: bool,      // K-C05-recreate
     labels: bool,        // K-C04-labels
     vector: bool,        // K-C07-vector
+    labelorder: bool,    // K-C06-labelorder
 }
 fn is_maint_compact(h: &HW) -> bool {
     matches!(h, HW::Compact | HW::Checkpoint)
@@ -963,6 +964,7 @@ fn classes(hw: &[HW]) -> Classes {
     let mut pend_n: BTreeSet<(u32, u8)> = BTreeSet::new(); // set since the last compaction
     let mut pend_e: BTreeSet<(E, u8)> = BTreeSet::new();
     let mut recreate_pending = false;
+    let mut rem_pending = false; // a value still held by an older run was removed: the next compaction sinks it anyway
     let mut label_change = false;
     let mut label_change_then_maint = false;
     for h in hw {
@@ -976,6 +978,9 @@ fn classes(hw: &[HW]) -> Classes {
                 }
                 let mut created_here: Vec<E> = Vec::new();
                 let mut tombed_here: BTreeSet<E> = BTreeSet::new();
+                let mut lrem_here: BTreeSet<(u32, u32)> = BTreeSet::new();
+                let mut here_n: BTreeSet<(u32, u8)> = BTreeSet::new();
+                let mut here_e: BTreeSet<(E, u8)> = BTreeSet::new();
                 for w in ws {
                     match w {
                         W::TombEdge(e) => {
@@ -1004,30 +1009,50 @@ fn classes(hw: &[HW]) -> Classes {
                             }
                         }
                         W::SetNP(a, k, _) => {
-                            pend_n.insert((*a, *k));
+                            here_n.insert((*a, *k));
                         }
                         W::SetEP(e, k, _) => {
-                            pend_e.insert((*e, *k));
+                            here_e.insert((*e, *k));
                         }
                         W::RemNP(a, k) => {
-                            pend_n.remove(&(*a, *k));
+                            here_n.remove(&(*a, *k));
                             if sunk_n.contains(&(*a, *k)) {
                                 c.remove = true;
                             }
+                            if pend_n.contains(&(*a, *k)) {
+                                rem_pending = true;
+                            }
                         }
                         W::RemEP(e, k) => {
-                            pend_e.remove(&(*e, *k));
+                            here_e.remove(&(*e, *k));
                             if sunk_e.contains(&(*e, *k)) {
                                 c.remove = true;
                             }
+                            if pend_e.contains(&(*e, *k)) {
+                                rem_pending = true;
+                            }
                         }
-                        W::AddLabel(..) | W::RemLabel(..) => label_change = true,
+                        W::AddLabel(a, l) => {
+                            label_change = true;
+                            if lrem_here.contains(&(*a, *l)) {
+                                c.labelorder = true;
+                            }
+                        }
+                        W::RemLabel(a, l) => {
+                            label_change = true;
+                            lrem_here.insert((*a, *l));
+                        }
                         _ => {}
                     }
                     r.apply(w);
                 }
+                pend_n.extend(here_n);
+                pend_e.extend(here_e);
             }
             x if is_maint_compact(x) => {
+                if rem_pending {
+                    c.remove = true;
+                }
                 if any_delete_committed {
                     c.tomb = true;
                 }
@@ -1128,6 +1153,7 @@ fn classify(c: &Classes, kinds: &BTreeSet<Kind>) -> Option<&'static str> {
     use Kind::*;
     let table: Vec<(bool, &'static str, Vec<Kind>)> = vec![
         (c.labels, "K-C04-labels", vec![Labels]),
+        (c.labelorder, "K-C06-labelorder", vec![Labels]),
         (c.eprops, "K-C06-eprops", vec![EProps]),
         (c.samerun, "K-C14-samerun", vec![EdgeSet]),
         (c.remove, "K-C05-remove", vec![NProps, EProps]),
@@ -1166,7 +1192,7 @@ fn write_case(cw: &mut CaseWriter, hw: &[HW], dumps: &[Dump], refs: &[Dump]) {
         coq_list(refs, coq_dump),
         {
             let c = classes(hw);
-            coq_list(&[c.eprops, c.samerun, c.tomb, c.remove, c.dups, c.recreate, c.labels, c.vector], |b| coq_bool(*b).to_string())
+            coq_list(&[c.eprops, c.samerun, c.tomb, c.remove, c.dups, c.recreate, c.labels, c.vector, c.labelorder], |b| coq_bool(*b).to_string())
         }
     ));
 }
@@ -1187,6 +1213,7 @@ fn corpus(prop: &str) -> Vec<Vec<Hop>> {
         "C06" => {
             v.push(vec![two(), t(vec![e(0, 1), SetEP { s: 0, t: 10, d: 1, k: 0, v: 2 }]), t(vec![TombEdge { s: 0, t: 10, d: 1 }]), t(vec![e(0, 1)])]);
             v.push(vec![two(), t(vec![e(2, 1), TombNode { n: 2 }])]);
+            v.push(vec![two(), t(vec![RemLabel { n: 0, l: 0 }, AddLabel { n: 0, l: 0 }])]);
         }
         "C05" => {
             v.push(vec![two(), t(vec![e(0, 1), SetNP { n: 0, k: 0, v: 2 }]), Hop::Compact, t(vec![TombEdge { s: 0, t: 10, d: 1 }, TombNode { n: 2 }, RemNP { n: 0, k: 0 }]), Hop::Compact]);
